@@ -46,7 +46,7 @@ def valid_sequence(rng, role, nmsgs, max_frag=4):
 VIOLATIONS = ['rsv1', 'rsv2', 'rsv3', 'reserved-data', 'reserved-ctl', 'frag-ping', 'frag-close', 'big-ping', 'big-close', 'big-pong',
               'orphan-cont', 'orphan-cont-fin', 'nested-text', 'nested-bin', 'wrong-mask', 'close-1byte', 'close-badutf8', 'bad-text',
               'bad-text-frag', 'trunc-text-final', 'wrong-mask-empty-ping', 'wrong-mask-empty-text', 'wrong-mask-empty-close',
-              'wrong-mask-empty-final-cont', 'wrong-mask-pong', 'frag-pong', 'frag-pong-big', 'frag-close-payload', 'close-trunc-utf8-max']
+              'wrong-mask-empty-final-cont', 'wrong-mask-pong', 'frag-pong', 'frag-pong-big', 'frag-close-payload', 'close-trunc-utf8-max', 'close-badutf8-badcode']
 
 def violation_frames(rng, role, v):
     pf = lambda op, p, **kw: peer_frame(role, op, p, **kw)
@@ -76,6 +76,7 @@ def violation_frames(rng, role, v):
     if v == 'close-1byte': return [pf(8, b'\x03')]
     if v == 'close-badutf8': return [pf(8, close_payload(1000, b'\xff\xfe'))]
     if v == 'close-trunc-utf8-max': return [pf(8, close_payload(1000, b'r' * rng.choice([120, 121, 122]) + rng.choice([b'\xc3', b'\xe2', b'\xf0'])))]
+    if v == 'close-badutf8-badcode': return [pf(8, close_payload(rng.choice([1005, 1006, 1015, 999, 2999, 5000]), rng.choice([b'\xff', b'a\xc3', b'\xed\xa0\x80'])))]
     if v == 'bad-text': return [pf(1, rng.choice(BAD_UTF8))]
     if v == 'bad-text-frag':
         b = rng.choice(BAD_UTF8)
